@@ -10,7 +10,8 @@ Model of one SMTP/LMTP connection of maddy's endpoint (core Lean only).  Mirrore
   `Data`, `LMTPData`, `statusWrapper.SetStatus`, `Reset`, `Logout`, `abort`, `cleanSession`, `releaseLimits`;
 * `internal/msgpipeline/msgpipeline.go`: `Start`/`start`, `AddRcpt`, `getDelivery`, `Body`, `BodyNonAtomic`,
   `Commit`, `Abort` (one global check, one global modifier, per-domain destination blocks);
-* `internal/limits/limits.go`: `TakeMsg` / `ReleaseMsg` as counters per source key.
+* `internal/limits/limits.go`: `TakeMsg` / `ReleaseMsg` as counters per source key; the order of the scopes and
+  the roll-back of `TakeMsg` (`takeMsg`, `releaseMsg`).
 
 Everything outside is a parameter: every target / check / modifier operation takes its result from the
 fault fields carried by the command tokens (`MailF`, `RcptF`, `DataF`); the iteration order of Go's
@@ -186,6 +187,55 @@ def release (st : World) (k : SrcKey) : World :=
   match k with
   | .src => if st.heldSrc = 0 then { st with panics := st.panics + 1 } else { st with heldSrc := st.heldSrc - 1 }
   | .null => if st.heldNull = 0 then { st with panics := st.panics + 1 } else { st with heldNull := st.heldNull - 1 }
+
+/-- Permits out in one scope of the limits group, summed over its keys.  `TakeMsg` / `ReleaseMsg` move the
+`all`, `ip` and `source` scopes together (one permit each); the `ip` key is a function of the peer address
+of the connection, which does not change, so `startDelivery` and `releaseLimits` name the same bucket.  Each
+configured scope therefore holds the sum over the source keys (harness: `held=` read from the real limiter
+state, every bucket that exists). -/
+def World.heldTotal (w : World) : Nat := w.heldSrc + w.heldNull
+
+/-! ### `limits.Group.TakeMsg` / `ReleaseMsg` across the scopes
+
+`TakeMsg` takes `all`, then `ip`, then `source`; a scope that cannot be granted before the deadline makes it
+fail and the scopes taken before are given back.  Whether a scope grants (a permit is free, or becomes free
+in time) is a parameter. -/
+
+inductive Scope | all | ip | source
+deriving DecidableEq, Repr
+
+/-- successful `Take` calls not yet followed by `Release`, per scope -/
+structure Held where
+  all : Nat := 0
+  ip : Nat := 0
+  source : Nat := 0
+deriving DecidableEq, Repr
+
+/-- `Group.TakeMsg`; `has` = the keyed scope is configured (`g.ip != nil`, `g.source != nil`) -/
+def takeMsg (has granted : Scope → Bool) (h : Held) : Held × Bool :=
+  if !granted .all then (h, false) else
+  let h1 : Held := { h with all := h.all + 1 }
+  if has .ip && !granted .ip then ({ h1 with all := h1.all - 1 }, false) else
+  let h2 : Held := if has .ip then { h1 with ip := h1.ip + 1 } else h1
+  if has .source && !granted .source then
+    ({ h2 with all := h2.all - 1, ip := if has .ip then h2.ip - 1 else h2.ip }, false)
+  else
+    (if has .source then { h2 with source := h2.source + 1 } else h2, true)
+
+/-- `Group.ReleaseMsg` -/
+def releaseMsg (has : Scope → Bool) (h : Held) : Held :=
+  { all := h.all - 1,
+    ip := if has .ip then h.ip - 1 else h.ip,
+    source := if has .source then h.source - 1 else h.source }
+
+/-- One session keeps a transaction open (it was granted every scope); `k` further sessions start one while
+the scope `tight` cannot be granted: reply code of each (`451` = refused) and the permits out afterwards. -/
+def contend (has : Scope → Bool) (tight : Scope) : Nat → Held → List Nat × Held
+  | 0, h => ([], h)
+  | k + 1, h =>
+    let (h', ok) := takeMsg has (fun s => s != tight) h
+    let (codes, h'') := contend has tight k h'
+    ((if ok then 250 else 451) :: codes, h'')
 
 /-! ### msgpipeline -/
 
